@@ -10,6 +10,12 @@ import DracoProofs.EbSeams
 import DracoProofs.EbCreateProps
 import DracoProofs.EbAttViews
 import DracoProofs.EbRoundtripExample
+import DracoProofs.EbConnNoOpp
+import DracoProofs.EbFinal3
+import DracoProofs.EbSplitFreeLink
+import DracoProofs.EbFinal6
+import DracoProofs.EbStartFaceCount
+import DracoProofs.EbCTIsoComplete
 /-
   C01 (staging) — facts about the Edgebreaker mesh decoder model (DracoModel/Eb*.lean).
   The model is tied to the real decoder by the correspondence of C01 (tools/props/ebcases.py);
@@ -790,6 +796,80 @@ example (extra : Bytes) : ∃ st st',
     Spec.checkCore .edgebreaker (SeqEnc.quantReq exG exO.base) exG exDecoded exDecoded = true :=
   exRoundtrip' extra
 
+open Draco.EbEnc Draco.EbEnc.FaceCorr Draco.EbEnc.PlanSettingP Draco.EbEnc.Final2 Draco.EbEnc.Final3 in
+/-- (b') **eb_roundtrip_of_link_partial** — `eb_roundtrip_conditional_partial` with everything that follows from the
+    ENCODER'S RUN discharged (follow-up 5): `PlanSetting` (the plan's attributes are the input's in stream order:
+    `planSetting_of_run`), `hproc`, `hfits`, `hcover` (traversal completeness, `Coverage.encodeConnectivity_coverage`), `hids`
+    and the static part of `DecoderOK` (attribute data ids of `generateControllers`: `EbCtrlIds`), `AttDataNonPos`, `hsides`,
+    `hnf`; `sides` are by construction the decoder's own sequencer / point-map runs (`sidesOfDecoder`).
+    Hypotheses left: the run (`henc`, `hmd`), the input inside the format's domain (`hatt`, `huid`, `hn128`: the attribute data
+    id is one signed byte), the CONNECTIVITY LINK (`hconn`, `hiso` as the Prop `CTIso` — from `ctIso = true` by
+    `eb_ctiso_sound` —, `hmatts`), `hseq` (the decoder's sequencers SUCCEED on `mesh`; equivariance is proved for two
+    successful runs), `hvals` (value blocks: `valuesOK_of_item` / `eb_value_block_conditional_iso`) and `hrows` (row
+    correspondence; `Final2.hrows_of_setups` reduces it to one `TupleSetup` per attribute). -/
+theorem eb_roundtrip_of_link_partial (ch : EbChoices) (g : Geometry) (md : Option GeometryMetadata) (o : EbOpts)
+    (enc : Encoded) (henc : encodeEdgebreaker ch g md o = .ok enc) (hmd : ∀ m, md = some m → m.WF')
+    (hatt : ∀ a, a < g.atts.toArray.size → EbAttOK (g.atts.toArray[a]!) (o.base.att a))
+    (huid : (g.atts.map (·.uniqueId)).Nodup)
+    (hn128 : g.atts.length ≤ 128)
+    (mesh : Mesh)
+    (hconn : ∀ coder, traversalCoder o g.faces.length = some coder →
+      Runs decodeConnectivity 514 ([coder] ++ enc.conn.bytes) mesh 514)
+    (hiso : CTIso enc.conn.ct enc.conn.processed mesh.numFaces mesh.c2v mesh.opp)
+    (hmatts : mesh.atts.size = enc.conn.atts.size)
+    (sides : List (SeqOut × Array Nat))
+    (hseq : sidesOfDecoder mesh enc.conn enc.controllers enc.couts.toList = .ok sides)
+    (hvals : ∀ (i k : Nat)
+      (hi : i < (planOf o g.atts.toArray enc.conn enc.controllers enc.couts.toList sides).length)
+      (hk : k < (planOf o g.atts.toArray enc.conn enc.controllers enc.couts.toList sides)[i].items.length),
+      ValuesOK mesh (planOf o g.atts.toArray enc.conn enc.controllers enc.couts.toList sides)[i]
+        (parentAt (planOf o g.atts.toArray enc.conn enc.controllers enc.couts.toList sides) i k)
+        (planOf o g.atts.toArray enc.conn enc.controllers enc.couts.toList sides)[i].items[k])
+    (hrows : RowsCorr g (itemOfRun o g.atts.toArray enc.couts.toList sides) mesh.faces (SeqEnc.flattenFaces g.faces).toArray
+      mesh.numFaces (phi enc.conn.processed))
+    (extra : Bytes) :
+    ∃ st st',
+      decodeGeometry {} { rest := enc.bytes ++ extra } =
+        (some ⟨planGeometry {} mesh (planOf o g.atts.toArray enc.conn enc.controllers enc.couts.toList sides), md⟩, st) ∧
+      st.rest = extra ∧
+      decodeGeometry { skip := SeqEnc.allTypes } { rest := enc.bytes ++ extra } =
+        (some ⟨planGeometry { skip := SeqEnc.allTypes } mesh
+          (planOf o g.atts.toArray enc.conn enc.controllers enc.couts.toList sides), md⟩, st') ∧
+      st'.rest = extra ∧
+      Spec.checkCore .edgebreaker (SeqEnc.quantReq g o.base) g
+        (planGeometry {} mesh (planOf o g.atts.toArray enc.conn enc.controllers enc.couts.toList sides))
+        (planGeometry { skip := SeqEnc.allTypes } mesh
+          (planOf o g.atts.toArray enc.conn enc.controllers enc.couts.toList sides)) = true :=
+  eb_roundtrip_of_link_rows ch g md o enc henc hmd hatt huid hn128 mesh hconn hiso hmatts sides hseq hvals hrows extra
+
+open Draco.EbEnc Draco.EbEnc.FaceCorr Draco.EbEnc.PlanSettingP Draco.EbEnc.Final2 Draco.EbEnc.Final3
+  Draco.EbEnc.ConnExample in
+/-- non-vacuity: the one-triangle stream again, now through `eb_roundtrip_of_link_partial` (every hypothesis discharged:
+    `hiso` by `ctIso_sound` from the evaluated checker, `hseq` and `hrows` by kernel evaluation) -/
+example (extra : Bytes) : ∃ st st',
+    decodeGeometry {} { rest := exBytes ++ extra } = (some ⟨planGeometry {} ConnExample.exMesh exPlan, none⟩, st) ∧ st.rest = extra ∧
+    decodeGeometry { skip := SeqEnc.allTypes } { rest := exBytes ++ extra } =
+      (some ⟨planGeometry { skip := SeqEnc.allTypes } ConnExample.exMesh exPlan, none⟩, st') ∧ st'.rest = extra ∧
+    Spec.checkCore .edgebreaker (SeqEnc.quantReq exG exO.base) exG (planGeometry {} ConnExample.exMesh exPlan)
+      (planGeometry { skip := SeqEnc.allTypes } ConnExample.exMesh exPlan) = true := by
+  have hiso : CTIso exEnc.conn.ct exEnc.conn.processed ConnExample.exMesh.numFaces ConnExample.exMesh.c2v ConnExample.exMesh.opp :=
+    ctIso_sound _ _ _ _ _ (by decide +kernel) (by decide +kernel) (by decide +kernel) exIso
+  have hseq : sidesOfDecoder ConnExample.exMesh exEnc.conn exEnc.controllers exEnc.couts.toList = .ok exSides := by
+    have h : (match sidesOfDecoder ConnExample.exMesh exEnc.conn exEnc.controllers exEnc.couts.toList with
+        | .ok s => decide (s = exSides) | .error _ => false) = true := by
+      decide +kernel
+    split at h
+    · rename_i s hs; rw [hs, of_decide_eq_true h]
+    · exact absurd h (by decide)
+  have hrows : RowsCorr exG (itemOfRun exO exG.atts.toArray exEnc.couts.toList exSides) ConnExample.exMesh.faces
+      (SeqEnc.flattenFaces exG.faces).toArray ConnExample.exMesh.numFaces (phi exEnc.conn.processed) := by
+    unfold RowsCorr
+    decide +kernel
+  have h := eb_roundtrip_of_link_partial exCh exG none exO exEnc exEncode (fun m h => by cases h) exHatt exHuid
+    (by decide +kernel) ConnExample.exMesh exHconn hiso (by decide +kernel) exSides hseq exHvals hrows extra
+  rw [exEnc_bytes] at h
+  exact h
+
 open Draco.EbEnc in
 /-- (b) **CTIso as a proposition**: the Boolean checker the op evaluates on every case (`iso-ok`) implies the
     Prop-level isomorphism `CTIso` (corner map injective into the encoder's table, opposite corners and boundary
@@ -828,5 +908,263 @@ set_option maxRecDepth 8000 in
 example : ctIso ⟨#[0, 1, 2], #[inv, inv, inv], #[0, 1, 2], 0, 0⟩ #[1] 1 #[7, 8, 9] #[inv, inv, inv] = true := by
   simp [ctIso, CT.numCorners, CT.numVertices, Id.run, Std.Legacy.Range.forIn_eq_forIn_range', Std.Legacy.Range.size,
     List.range'_succ, inv, Eb.nextC, Eb.prevC, bind, pure]
+
+section LinkBase
+open Draco Draco.SeqEnc DecM Draco.EbEnc
+open Draco.Eb hiding iabs nextC prevC
+open Draco.EbEnc.PosAgreeP Draco.EbEnc.Tuples Draco.EbEnc.FaceCorr Draco.EbEnc.PlanSettingP Draco.EbEnc.Final2 Draco.EbEnc.Final3
+  Draco.EbEnc.Final4 Draco.EbEnc.Final5 Draco.EbEnc.Final6 Draco.EbEnc.EncCounts Draco.EbEnc.ConnExample
+
+/-- (b'') **eb_roundtrip_of_link_base_partial** — the stream-level round trip for the class "EVERY CONTROLLER IS ON THE BASE
+    TABLE" (`hclass`: `onAttTable = false` for every controller output — single connectivity, position-only geometries,
+    attributes without interior seams; either traversal method): compared with `eb_roundtrip_of_link_partial` there is NO
+    `hseq` (the decoder's sequencers and `UpdatePointToAttributeIndexMapping` SUCCEED: success transfer from the encoder's
+    traversal, `depthFirst_success_transfer` / `maxPredictionDegree_success_transfer`, `pointToValueMap_success`) and NO
+    `hrows` (the row correspondence is derived from the link for every item on the base table under a single connectivity and
+    for the POSITION attribute otherwise; `hrest` asks for the `TupleSetup` of the remaining items only and is vacuous under a
+    single connectivity and for position-only geometries).  Hypotheses left: the run (`henc`, `hmd`), the domain (`hatt`,
+    `huid`, `hn128`, `hbytes`, `hgv`), the CONNECTIVITY LINK (`hconn`, `hiso`, `hmatts`), the decoder-table facts `DecBaseOK`
+    (vertex ids index `vc`, `IsOnBoundary` agrees, points refine vertices) and `DecSeqOK` (`EbDecSeqOK.decSeqOK_of_stages`
+    derives it from the decoder's stages), `hvals` (value blocks), `hrest`. -/
+theorem eb_roundtrip_of_link_base_partial (ch : EbChoices) (g : Geometry) (md : Option GeometryMetadata) (o : EbOpts)
+    (enc : Encoded) (henc : encodeEdgebreaker ch g md o = .ok enc) (hmd : ∀ m, md = some m → m.WF')
+    (hatt : ∀ a, a < g.atts.toArray.size → EbAttOK (g.atts.toArray[a]!) (o.base.att a))
+    (huid : (g.atts.map (·.uniqueId)).Nodup) (hn128 : g.atts.length ≤ 128)
+    (hbytes : ∀ a ∈ g.atts, IsBytes a.values) (hgv : g.valid = true)
+    (mesh : Mesh)
+    (hconn : ∀ coder, traversalCoder o g.faces.length = some coder →
+      Runs decodeConnectivity 514 ([coder] ++ enc.conn.bytes) mesh 514)
+    (hiso : CTIso enc.conn.ct enc.conn.processed mesh.numFaces mesh.c2v mesh.opp)
+    (hmatts : mesh.atts.size = enc.conn.atts.size)
+    (hD : DecBaseOK enc mesh) (hS : DecSeqOK mesh)
+    (hclass : ∀ c ∈ enc.couts.toList, (enc.controllers[c.ctrl]!).onAttTable = false)
+    (hvals : ∀ sides, sidesOfDecoder mesh enc.conn enc.controllers enc.couts.toList = .ok sides → ∀ (i k : Nat)
+      (hi : i < (planOf o g.atts.toArray enc.conn enc.controllers enc.couts.toList sides).length)
+      (hk : k < (planOf o g.atts.toArray enc.conn enc.controllers enc.couts.toList sides)[i].items.length),
+      ValuesOK mesh (planOf o g.atts.toArray enc.conn enc.controllers enc.couts.toList sides)[i]
+        (parentAt (planOf o g.atts.toArray enc.conn enc.controllers enc.couts.toList sides) i k)
+        (planOf o g.atts.toArray enc.conn enc.controllers enc.couts.toList sides)[i].items[k])
+    (hrest : ∀ sides, sidesOfDecoder mesh enc.conn enc.controllers enc.couts.toList = .ok sides →
+      ∀ c side it, (c, side) ∈ enc.couts.toList.zip sides → it ∈ c.items.toList →
+      ¬ (useSingleConnectivity o = true ∨
+        (((g.atts.toArray[(enc.controllers[c.ctrl]!).attIds[0]!]!).attType == posType) = true ∧
+         ((g.atts.toArray[it.attId]!).attType == posType) = true)) →
+      ∃ (dC : TView) (ψC : Nat → Nat) (np npD : Nat), dC.numFaces = mesh.numFaces ∧
+        TupleSetup (g.atts.toArray[it.attId]!) np (flattenFaces g.faces).toArray mesh.faces npD dC c.view
+          (phi enc.conn.processed) ψC side.1 c.seq side.2)
+    (extra : Bytes) :
+    ∃ sides, sidesOfDecoder mesh enc.conn enc.controllers enc.couts.toList = .ok sides ∧ ∃ st st',
+      decodeGeometry {} { rest := enc.bytes ++ extra } =
+        (some ⟨planGeometry {} mesh (planOf o g.atts.toArray enc.conn enc.controllers enc.couts.toList sides), md⟩, st) ∧
+      st.rest = extra ∧
+      decodeGeometry { skip := allTypes } { rest := enc.bytes ++ extra } =
+        (some ⟨planGeometry { skip := allTypes } mesh
+          (planOf o g.atts.toArray enc.conn enc.controllers enc.couts.toList sides), md⟩, st') ∧
+      st'.rest = extra ∧
+      Spec.checkCore .edgebreaker (quantReq g o.base) g
+        (planGeometry {} mesh (planOf o g.atts.toArray enc.conn enc.controllers enc.couts.toList sides))
+        (planGeometry { skip := allTypes } mesh
+          (planOf o g.atts.toArray enc.conn enc.controllers enc.couts.toList sides)) = true :=
+  Final6.eb_roundtrip_of_link_base'' ch g md o enc henc hmd hatt huid hn128 hbytes hgv mesh hconn hiso hmatts hD hS hclass
+    hvals hrest extra
+
+/-- non-vacuity: the one-triangle stream; `DecBaseOK`, `DecSeqOK`, `hclass` proved, `hrest` vacuous, only the value-block
+    condition `exHvals` is an evaluated input -/
+example (extra : Bytes) :
+    ∃ st st',
+      decodeGeometry {} { rest := exBytes ++ extra } = (some ⟨planGeometry {} ConnExample.exMesh exPlan, none⟩, st) ∧ st.rest = extra ∧
+      decodeGeometry { skip := allTypes } { rest := exBytes ++ extra } =
+        (some ⟨planGeometry { skip := allTypes } ConnExample.exMesh exPlan, none⟩, st') ∧ st'.rest = extra ∧
+      Spec.checkCore .edgebreaker (quantReq exG exO.base) exG (planGeometry {} ConnExample.exMesh exPlan)
+        (planGeometry { skip := allTypes } ConnExample.exMesh exPlan) = true := by
+  have hiso : CTIso exEnc.conn.ct exEnc.conn.processed ConnExample.exMesh.numFaces ConnExample.exMesh.c2v ConnExample.exMesh.opp :=
+    ctIso_sound _ _ _ _ _ (by decide +kernel) (by decide +kernel) (by decide +kernel) exIso
+  have hseq0 : sidesOfDecoder ConnExample.exMesh exEnc.conn exEnc.controllers exEnc.couts.toList = .ok exSides := by
+    have h : (match sidesOfDecoder ConnExample.exMesh exEnc.conn exEnc.controllers exEnc.couts.toList with
+        | .ok s => decide (s = exSides) | .error _ => false) = true := by
+      decide +kernel
+    split at h
+    · rename_i s hs; rw [hs, of_decide_eq_true h]
+    · exact absurd h (by decide)
+  have hsides : ∀ sides, sidesOfDecoder ConnExample.exMesh exEnc.conn exEnc.controllers exEnc.couts.toList = .ok sides →
+      sides = exSides := by
+    intro sides h
+    rw [hseq0] at h
+    exact (Except.ok.inj h).symm
+  have hD : DecBaseOK exEnc ConnExample.exMesh :=
+    { hdv := by decide +kernel
+      hbd := by
+        intro d hd
+        have h3 : d < 3 := by
+          have : ConnExample.exMesh.numFaces = 1 := by decide +kernel
+          omega
+        have : d = 0 ∨ d = 1 ∨ d = 2 := by omega
+        rcases this with rfl | rfl | rfl <;> exact ⟨true, by decide +kernel, by decide +kernel⟩
+      refines := by
+        intro c c' hc hc'
+        have hn : (baseViewD ConnExample.exMesh.numFaces ConnExample.exMesh.c2v ConnExample.exMesh.opp ConnExample.exMesh.vc).numFaces = 1 := by decide +kernel
+        rw [hn] at hc hc'
+        have h1 : c = 0 ∨ c = 1 ∨ c = 2 := by omega
+        have h2 : c' = 0 ∨ c' = 1 ∨ c' = 2 := by omega
+        rcases h1 with rfl | rfl | rfl <;> rcases h2 with rfl | rfl | rfl <;> decide +kernel }
+  have hS : DecSeqOK ConnExample.exMesh :=
+    { hNV := by decide +kernel, hnp := by decide +kernel, hfa := by decide +kernel, hfp := by decide +kernel,
+      hcov := by decide +kernel }
+  have hbytes : ∀ a ∈ exG.atts, IsBytes a.values := by
+    have hb : (exG.atts.all fun a => a.values.all fun b => decide (b < 256)) = true := by decide +kernel
+    intro a ha b hb'
+    have h1 := List.all_eq_true.mp hb a ha
+    have h2 := List.all_eq_true.mp h1 b hb'
+    simpa using h2
+  have hall : (exEnc.couts.toList.all fun c => c.items.toList.all fun it =>
+      ((exG.atts.toArray[(exEnc.controllers[c.ctrl]!).attIds[0]!]!).attType == posType) &&
+      ((exG.atts.toArray[it.attId]!).attType == posType)) = true := by decide +kernel
+  have hcl : (exEnc.couts.toList.all fun c => !(exEnc.controllers[c.ctrl]!).onAttTable) = true := by decide +kernel
+  obtain ⟨sides, hs, h⟩ := eb_roundtrip_of_link_base_partial ConnExample.exCh exG none exO exEnc exEncode (fun m h => by cases h) exHatt
+    exHuid (by decide +kernel) hbytes (by decide +kernel) ConnExample.exMesh exHconn hiso (by decide +kernel) hD hS
+    (by
+      intro c hc
+      have := List.all_eq_true.mp hcl c hc
+      simpa using this)
+    (by
+      intro sides hs
+      rw [hsides sides hs]
+      exact exHvals)
+    (by
+      intro sides hs c side it hz hit hn
+      exfalso
+      apply hn
+      right
+      have hc := (List.of_mem_zip hz).1
+      have h1 := List.all_eq_true.mp hall c hc
+      have h2 := List.all_eq_true.mp h1 it hit
+      simpa using h2) extra
+  rw [hsides sides hs, exEnc_bytes] at h
+  exact h
+
+end LinkBase
+
+section ConnectivityLink
+open Draco Draco.EbEnc
+open Draco.Eb hiding iabs nextC prevC
+open Draco.EbEnc.ConnTri Draco.EbEnc.ConnNoOpp Draco.EbEnc.ConnExample
+
+/-- (c) **THE CONNECTIVITY LINK**, full statement (`ConnTri.EbConnectivityRoundtrip ch valence posFaces acv`, NOT proved in
+    general; evaluated on every case as `iso-ok`): for EVERY successful `encodeConnectivity ch valence posFaces acv = .ok conn`
+    there is a `mesh` such that the decoder's connectivity stage, on the traversal-coder byte followed by the encoder's
+    connectivity bytes and then anything, returns `mesh` having consumed exactly those bytes
+    (`Runs decodeConnectivity 514 ([if valence then 2 else 0] ++ conn.bytes) mesh 514`), the decoder's corner table is
+    isomorphic to the encoder's under the corner map of `processed_connectivity_corners_`
+    (`ctIso conn.ct conn.processed mesh.numFaces mesh.c2v mesh.opp = true`), and there is one attribute connectivity per
+    attribute data.  It is the `hconn` + `hnf` (+ `ctIso`) hypothesis of `eb_roundtrip_conditional_partial`.
+
+    **eb_connectivity_roundtrip_partial** — PROVED for the class "every component is a single triangle": `1 ≤ k ≤ 2^21`
+    non-degenerate faces with ARBITRARY vertex ids whose corner table (`CornerTable.create`) has no opposite link (faces may
+    share vertices, e.g. a bow tie, but no two faces are joined along an edge), standard traversal, no attribute data,
+    EVERY encoder choice `ch`.  Encoder half symbolically (`encode_noopp`: every vertex is a hole vertex, one symbol E and
+    one boundary start-face bit per face, processed corners `3(k−1), …, 3, 0`), decoder half symbolically for every `k`
+    (`runs_decodeConnectivity_tri`: two loop invariants over `connLoop`), and the checker accepts (`ctIso_true_noopp`). -/
+theorem eb_connectivity_roundtrip_partial (ch : ConnChoices) {pf : Faces} {tbl : CornerTable} (h : NoOpp pf tbl)
+    (hk1 : 1 ≤ pf.size) (hk : pf.size ≤ 2 ^ 21) (conn : ConnEnc)
+    (henc : encodeConnectivity ch false pf #[] = .ok conn) :
+    ∃ mesh, Runs decodeConnectivity 514 ([0] ++ conn.bytes) mesh 514 ∧
+      ctIso conn.ct conn.processed mesh.numFaces mesh.c2v mesh.opp = true ∧ mesh.atts.size = conn.atts.size :=
+  eb_connectivity_roundtrip_noopp ch h hk1 hk conn henc
+
+/-- a bow tie: two triangles sharing the vertex 0 and no edge -/
+def bowTie : Faces := #[(0, 1, 2), (0, 3, 4)]
+def bowTieTable : CornerTable := match CornerTable.create bowTie with | some t => t | none => default
+
+theorem bowTie_noopp : NoOpp bowTie bowTieTable := by
+  refine ⟨?_, ?_, ?_⟩
+  · have h : (CornerTable.create bowTie).isSome = true := by decide +kernel
+    unfold bowTieTable
+    split
+    · rename_i t ht; exact ht
+    · rename_i hn; rw [hn] at h; exact absurd h (by decide)
+  · intro f hf
+    have hf' : f < 2 := hf
+    obtain rfl | rfl : f = 0 ∨ f = 1 := by omega
+    all_goals decide +kernel
+  · intro c hc
+    have hc' : c < 6 := hc
+    obtain rfl | rfl | rfl | rfl | rfl | rfl : c = 0 ∨ c = 1 ∨ c = 2 ∨ c = 3 ∨ c = 4 ∨ c = 5 := by omega
+    all_goals decide +kernel
+
+/-- non-vacuity: the bow tie is in the class, the encoder's run on it succeeds, and the link holds for it -/
+example : ∃ conn mesh, encodeConnectivity exCh.conn false bowTie #[] = .ok conn ∧
+    Runs decodeConnectivity 514 ([0] ++ conn.bytes) mesh 514 ∧
+    ctIso conn.ct conn.processed mesh.numFaces mesh.c2v mesh.opp = true := by
+  have h : (match encodeConnectivity exCh.conn false bowTie #[] with | .ok _ => true | .error _ => false) = true := by
+    decide +kernel
+  split at h
+  · rename_i conn he
+    obtain ⟨mesh, h1, h2, _⟩ := eb_connectivity_roundtrip_partial exCh.conn bowTie_noopp (by decide) (by decide) conn he
+    exact ⟨conn, mesh, he, h1, h2⟩
+  · exact absurd h (by decide)
+
+/-- corollary: pairwise vertex-disjoint non-degenerate triangles with arbitrary vertex ids; in particular
+    `ConnTri.TriRoundtripGoal` (`ConnNoOpp.triRoundtripGoal`) -/
+theorem eb_connectivity_roundtrip_partial_disjoint (ch : ConnChoices) (pf : Faces) (hk1 : 1 ≤ pf.size)
+    (hk : pf.size ≤ 2 ^ 21) (hnd : ∀ f, f < pf.size → faceDegenerate pf f = false)
+    (hdis : ∀ c c', c < 3 * pf.size → c' < 3 * pf.size → c / 3 ≠ c' / 3 → inputVertex pf c ≠ inputVertex pf c')
+    (conn : ConnEnc) (henc : encodeConnectivity ch false pf #[] = .ok conn) :
+    ∃ mesh, Runs decodeConnectivity 514 ([0] ++ conn.bytes) mesh 514 ∧
+      ctIso conn.ct conn.processed mesh.numFaces mesh.c2v mesh.opp = true ∧ mesh.atts.size = conn.atts.size :=
+  eb_connectivity_roundtrip_disjoint ch pf hk1 hk hnd hdis conn henc
+
+example (ch : ConnChoices) : EbConnectivityRoundtrip ch false (triFaces 5) #[] :=
+  triRoundtripGoal ch 5 (by decide) (by decide)
+
+/-- **eb_connectivity_roundtrip_splitfree_partial** — the connectivity link for SPLIT-FREE traversals of ARBITRARY meshes:
+    a successful `encodeConnectivity` (standard traversal, no attribute data, every encoder choice `ch`) whose symbols contain
+    no S (`hnoS`; then no topology split event is recorded: `noS_of_main`) and whose start faces are all boundary starts
+    (`hstart`) — i.e. components traversed with C / R / L / E only: strips, fans, discs —, inside the decoder's domain checks
+    (`hnf`, `hnv`, the edge-count check `hedge`) ⇒ the decoder's connectivity stage reads exactly the encoder's bytes and
+    rebuilds a corner table ISOMORPHIC to the encoder's — both as the Prop `CTIso` and in the checker form `ctIso = true`
+    (checker completeness `CTIsoComplete.ctIso_complete`: `CTIso ⇒ ctIso = true`, no side condition).  No hypothesis about
+    running the decoder; "one start-face flag per symbol E" is proved (`StartFaceCount.hE_of_run`).  Proof: encoder trace
+    (`EncTrace.trace_of_run`: timestamped invariant through the encoder's loops) → pure decoder simulation
+    (`DecSim.inv_step`, `ctIso_of_inv`: the decoder's `opp` is the induced sub-table on the faces decoded so far) → monadic
+    glue (`DecSim.connLoop_St`: `connLoop` on any reader state delivering the symbols returns the pure state) → stream level
+    (`ConnGlue.link_of_loop'`, `encode_bytes_splitfree'`). -/
+theorem eb_connectivity_roundtrip_splitfree_partial (ch : ConnChoices) (pf : Faces) (conn : ConnEnc)
+    (h : encodeConnectivity ch false pf #[] = .ok conn)
+    (hnoS : ∀ x, x ∈ conn.symbols.toList → x ≠ topoS)
+    (hstart : ∀ b, b ∈ conn.startFaces.toList → b = false)
+    (hnf : conn.processed.size ≤ 2 ^ 21)
+    (hnv : conn.ct.numVertices - conn.ct.numIsolated ≤ 3 * 2 ^ 21)
+    (hedge : 3 * conn.processed.size / 2 ≤
+      (conn.ct.numVertices - conn.ct.numIsolated) * (conn.ct.numVertices - conn.ct.numIsolated - 1) / 2) :
+    ∃ mesh, Runs decodeConnectivity 514 ([0] ++ conn.bytes) mesh 514 ∧
+      ctIso conn.ct conn.processed mesh.numFaces mesh.c2v mesh.opp = true ∧
+      CTIso conn.ct conn.processed mesh.numFaces mesh.c2v mesh.opp ∧ mesh.atts.size = conn.atts.size := by
+  obtain ⟨mesh, h1, h2, h3⟩ := StartFaceCount.eb_connectivity_roundtrip_splitfree_closed' ch pf conn h hnoS hstart hnf hnv hedge
+  exact ⟨mesh, h1, CTIsoComplete.ctIso_complete h2, h2, h3⟩
+
+/-- a closed fan of four triangles around the interior vertex 0 (symbols C R R E) glued to nothing else -/
+def fan4 : Faces := #[(0, 1, 2), (0, 2, 3), (0, 3, 4), (0, 4, 1)]
+def fan4Conn : ConnEnc :=
+  match encodeConnectivity exCh.conn false fan4 #[] with
+  | .ok c => c
+  | .error _ => default
+
+theorem fan4Encode : encodeConnectivity exCh.conn false fan4 #[] = .ok fan4Conn := by
+  have h : (match encodeConnectivity exCh.conn false fan4 #[] with | .ok _ => true | .error _ => false) = true := by
+    decide +kernel
+  unfold fan4Conn
+  split at h
+  · rename_i e he; rw [he]
+  · exact absurd h (by decide)
+
+/-- non-vacuity: the fan (a C symbol closes it), the model's own run; every hypothesis by kernel evaluation -/
+example : fan4Conn.symbols = #[0, 5, 5, 7] ∧ ∃ mesh, Runs decodeConnectivity 514 ([0] ++ fan4Conn.bytes) mesh 514 ∧
+    CTIso fan4Conn.ct fan4Conn.processed mesh.numFaces mesh.c2v mesh.opp :=
+  ⟨by decide +kernel, by
+    obtain ⟨mesh, h1, _, h2, _⟩ := eb_connectivity_roundtrip_splitfree_partial exCh.conn fan4 fan4Conn fan4Encode
+      (by decide +kernel) (by decide +kernel) (by decide +kernel) (by decide +kernel) (by decide +kernel)
+    exact ⟨mesh, h1, h2⟩⟩
+
+end ConnectivityLink
 
 end Draco.C01Eb
